@@ -324,7 +324,7 @@ class Context(object):
             if frame is self.__dict__["_root"]:
                 continue
             if attr in frame:
-                record = self.__dict__["_record"][attr]
+                record = self.__dict__["_record"].get(attr, _UNKNOWN_RECORD)
                 params = {
                     "attr": attr,
                     "filename": record[0],
@@ -339,11 +339,12 @@ class Context(object):
 
     def _emit_warning(self, attr, params):
         msg = ""
-        if self._mode is ContextMode.BEHAVE and self._origin[attr] is not ContextMode.BEHAVE:
+        origin = self._origin.get(attr, ContextMode.BEHAVE)
+        if self._mode is ContextMode.BEHAVE and origin is not ContextMode.BEHAVE:
             msg = "behave runner is masking context attribute '%(attr)s' " \
                   "originally set in %(function)s (%(filename)s:%(line)s)"
         elif self._mode is ContextMode.USER:
-            if self._origin[attr] is not ContextMode.USER:
+            if origin is not ContextMode.USER:
                 msg = "user code is masking context attribute '%(attr)s' " \
                       "originally set by behave"
             elif self._config.verbose:
@@ -384,7 +385,7 @@ class Context(object):
 
         for frame in self._stack[1:]:
             if attr in frame:
-                record = self._record[attr]
+                record = self._record.get(attr, _UNKNOWN_RECORD)
                 params = {
                     "attr": attr,
                     "filename": record[0],
@@ -407,7 +408,7 @@ class Context(object):
         frame = self._stack[0]
         if attr in frame:
             del frame[attr]
-            del self._record[attr]
+            self._record.pop(attr, None)
         else:
             msg = "'{0}' object has no attribute '{1}' at the current level"
             msg = msg.format(self.__class__.__name__, attr)
@@ -973,3 +974,7 @@ class Runner(ModelRunner):
 # -----------------------------------------------------------------------------
 ITestRunner.register(ModelRunner)
 ITestRunner.register(Runner)
+
+
+# -- USED BY: Context (placeholder if no assignment location was recorded).
+_UNKNOWN_RECORD = ("<unknown>", 0, None, "<unknown>")
